@@ -266,9 +266,16 @@ theorem C20_wkt_parameter_map (sr : SR XR) (v : Str) (x : XR) (hv : ',' ∉ v)
   refine ⟨?_, ?_, ?_, ?_, ?_, ?_, ?_, ?_, ?_, ?_, ?_, ?_, ?_, ?_, ?_, ?_⟩ <;>
     (rw [param_apply sr _ v _ x (by decide) hv hx rfl]; rfl)
 
+theorem wktFinish_origin (sr : SR XR) :
+    (wktFinish sr).x0 = Num.mul sr.x0 sr.toMeter ∧ (wktFinish sr).y0 = Num.mul sr.y0 sr.toMeter ∧ (wktFinish sr).toMeter = sr.toMeter := by
+  unfold wktFinish
+  simp only []
+  refine ⟨?_, ?_, ?_⟩ <;> (repeat' split) <;> rfl
+
 /-- **C20_wkt_false_origin_metres** — whatever the sections wrote, `wkt` returns the false origin
 multiplied by the linear unit's factor (the WKT false origin is stated in the declared unit, the
-transformer works in metres). -/
+transformer works in metres); the scaling happens AFTER all sections have been read, so the clause
+order of the text cannot matter. -/
 theorem C20_wkt_false_origin_metres (w : Str) (r : SR XR) (h : wkt (α := XR) w = .ok r) :
     let p := (parseWKTSection (α := XR) (w.length + 1) [] w newSR).1
     r.x0 = Num.mul p.x0 p.toMeter ∧ r.y0 = Num.mul p.y0 p.toMeter ∧ r.toMeter = p.toMeter := by
@@ -278,6 +285,6 @@ theorem C20_wkt_false_origin_metres (w : Str) (r : SR XR) (h : wkt (α := XR) w 
   · exact absurd h (by simp)
   · injection h with h
     subst h
-    refine ⟨?_, ?_, ?_⟩ <;> (repeat' split) <;> rfl
+    exact wktFinish_origin _
 
 end GeomV.C20
